@@ -32,9 +32,9 @@ def RULE(tier):
     n = NMAX[tier]
     return (
         f"A: da.percentile on EVERY 1-d array of length 1..{n} over 4 levels (duplicates) x EVERY chunking (plus every chunking with zero-length "
-        f"chunks, <= 3 chunks, n <= 3) x every non-empty sorted sub-vector of {QFULL} (31; n = {n}: "
-        + ("all 31" if tier == "thorough" else "the 8 listed in QSUB")
-        + ") and scalar q x methods linear/lower/higher/nearest/midpoint x dtypes i8, f8 (quick, n >= 3: f8 with linear and QSUB only) and f8 with levels (-inf, a, b, +inf) for "
+        f"chunks, <= 3 chunks, n <= 3) x every non-empty sorted sub-vector of {QFULL} (31; "
+        + ("n >= 5: the 8 listed in QSUB, n = 6 with methods linear/lower/nearest on int data" if tier == "thorough" else "n = 4: the 8 listed in QSUB")
+        + ") and scalar q x methods linear/lower/higher/nearest/midpoint x dtypes i8, f8 (quick: f8 in full for n <= 2, linear x QSUB for n = 3, none for n = 4) and f8 with levels (-inf, a, b, +inf) for "
         "lower/higher/nearest: bounds, monotone in q, end-points. B: da.nanpercentile along each axis vs np.nanpercentile on 1-d (n <= 4) and "
         "2-d (2,2),(2,3),(3,2) arrays with EVERY NaN placement x every chunking x q in {0, 50, 100, 30, [25,75], [0,50,100]} x keepdims x "
         "methods (and every NaN/+inf placement on (2,2) with lower/higher/nearest). non-trivial = >= 2 chunks (A) / >= 2 chunks along the reduced axis (B)."
@@ -83,8 +83,10 @@ def pct_cases(n, chunkings, tier, datas=None, dtypes=("i8", "f8"), methods=METHO
             for q in qs:
                 for m in methods:
                     for dt in dtypes:
-                        if dt == "f8" and tier == "quick" and n >= 3 and (m != "linear" or q not in QSUB):
-                            continue  # quick tier, n >= 3: float data with the linear method and the 8 QSUB vectors only
+                        if dt == "f8" and tier == "quick" and (n >= 4 or (n == 3 and (m != "linear" or q not in QSUB))):
+                            continue  # quick tier: float data for n <= 2 in full, n = 3 with the linear method and the 8 QSUB vectors, not for n = 4
+                        if dt == "f8" and tier == "thorough" and (n >= 6 or (n == 5 and m != "linear")):
+                            continue
                         yield ("pct", n, ch, tuple(data), dt, q, m)
 
 
@@ -94,10 +96,12 @@ def cases_of(shard, tier):
         _, n, part, nparts = shard
         chs = [(c,) for c in enums.compositions(n)]
         qs = all_q() if (n < NMAX[tier] or tier == "thorough") else list(QSUB)
+        methods = METHODS
         if tier == "thorough" and n >= 5:
-            qs = list(QSUB) if n == 6 else all_q()
+            qs = list(QSUB)  # thorough, n >= 5: the 8 QSUB vectors; n = 6: methods linear/lower/nearest on int data
+            methods = METHODS if n == 5 else ("linear", "lower", "nearest")
         datas = [d for i, d in enumerate(itertools.product(range(4), repeat=n)) if i % nparts == part]
-        yield from pct_cases(n, chs, tier, datas=None if nparts == 1 else datas, qs=qs)
+        yield from pct_cases(n, chs, tier, datas=None if nparts == 1 else datas, qs=qs, methods=methods)
         if part == 0:
             for data in itertools.product(range(4), repeat=min(n, 3)):
                 for ch in chs if n <= 3 else []:
@@ -107,7 +111,7 @@ def cases_of(shard, tier):
     elif kind == "pctz":
         for n in (1, 2, 3):
             chs = [(c,) for c in enums.compositions_with_zeros(n, 3) if 0 in c and len(c) > 1]
-            yield from pct_cases(n, chs, tier, dtypes=("i8",), qs=list(QSUB), methods=METHODS if tier == "thorough" else ("linear", "lower", "nearest"))
+            yield from pct_cases(n, chs, tier, dtypes=("i8",), qs=list(QSUB), methods=METHODS if tier == "thorough" else ("linear", "lower"))
     elif kind == "pctinf":
         for n in (1, 2, 3) + ((4,) if tier == "thorough" else ()):
             chs = [(c,) for c in enums.compositions(n)]
